@@ -103,19 +103,27 @@ def make_printers():
 
 def bad_tree(text):
     """a tree that makes every printer raise midway: a node kind without a
-    definition deep inside"""
+    definition at the deepest last position of the tree (inside the scopes
+    and blocks that enclose it, so that the call is given up with all of
+    them entered)"""
     from calmjs.parse.parsers.es5 import parse
     from calmjs.parse import asttypes
     tree = parse(text)
-    kids = tree.children()
-    last = kids[-1]
-    for k, v in vars(last).items():
-        if isinstance(v, asttypes.Node):
-            setattr(last, k, asttypes.Node())
+    parent, node = None, tree
+    while True:
+        kids = [k for k in node.children() if isinstance(k, asttypes.Node)]
+        if not kids:
             break
-        if isinstance(v, list) and v:
-            v[-1] = asttypes.Node()
+        parent, node = node, kids[-1]
+    for k, v in vars(parent).items():
+        if v is node:
+            setattr(parent, k, asttypes.Node())
             break
+        if isinstance(v, list) and any(x is node for x in v):
+            v[[x is node for x in v].index(True)] = asttypes.Node()
+            break
+    else:
+        raise RuntimeError('bad_tree: %r not found in its parent' % (node,))
     return tree
 
 
